@@ -485,6 +485,26 @@ func (bi *bvInterp) stmt(p *bvPath, s ast.Stmt) []*bvPath {
 		vals := make([]*bvVal, len(x.Rhs))
 		for i, r := range x.Rhs {
 			rv := bi.expr(p, r)
+			// a struct assigned by value is a copy (r := *n): later writes to it leave the original alone
+			if rv != nil && rv.Fields != nil && (x.Tok == token.ASSIGN || x.Tok == token.DEFINE) {
+				if t := bi.info.TypeOf(r); t != nil {
+					if _, isStruct := t.Underlying().(*types.Struct); isStruct {
+						if _, lit := unparen(r).(*ast.CompositeLit); !lit {
+							cp := &bvVal{Fields: map[string]BV{}}
+							for k, v := range rv.Fields {
+								cp.Fields[k] = v
+							}
+							if rv.Sub != nil {
+								cp.Sub = map[string]*bvVal{}
+								for k, v := range rv.Sub {
+									cp.Sub[k] = v
+								}
+							}
+							rv = cp
+						}
+					}
+				}
+			}
 			if x.Tok != token.ASSIGN && x.Tok != token.DEFINE {
 				op := assignOp(x.Tok)
 				lv := bi.expr(p, x.Lhs[i])
@@ -854,6 +874,10 @@ func (bi *bvInterp) expr(p *bvPath, e ast.Expr) *bvVal {
 		o := bi.obj(x)
 		if v, ok := p.Vars[o]; ok && v != nil {
 			return v
+		}
+		if bi.recv != nil && o == bi.recv && p.Recv != nil {
+			// the receiver as a whole (*n, or n handed on): the same fields, seen as a struct value
+			return &bvVal{Fields: p.Recv, Sub: p.RecvSub}
 		}
 		return &bvVal{Opaque: "ident:" + x.Name}
 	case *ast.SelectorExpr:
@@ -1393,6 +1417,15 @@ func (bi *bvInterp) call(p *bvPath, x *ast.CallExpr) *bvVal {
 					if isErrorResult(fi) {
 						nOK++
 						okIdx = i
+					}
+				}
+				// the comma-ok form: the last result is the constant true on exactly one path, false on the others
+				if n := len(o.Ret); n > 1 && isBoolResult(fi) && o.Ret[n-1] != nil && o.Ret[n-1].isInt() && o.Ret[n-1].BV.IsBool {
+					if c, isC := o.Ret[n-1].BV.isConst(); isC && c == 1 {
+						nOK++
+						okIdx = i
+					} else if !isC {
+						nOK += 2 // not a constant: no path can be singled out
 					}
 				}
 			}
@@ -1955,6 +1988,18 @@ func (bi *bvInterp) decide(p *bvPath, cond ast.Expr) (known, val bool) {
 		return true, false
 	}
 	return false, false
+}
+
+func isBoolResult(fi *FuncInfo) bool {
+	if fi == nil || fi.Decl.Type.Results == nil {
+		return false
+	}
+	l := fi.Decl.Type.Results.List
+	if len(l) == 0 {
+		return false
+	}
+	id, ok := l[len(l)-1].Type.(*ast.Ident)
+	return ok && id.Name == "bool"
 }
 
 func isErrorResult(fi *FuncInfo) bool {
